@@ -1,5 +1,5 @@
 (* Comparators for allocation cells (correspondence files of C02/C12/C03). *)
-From FrameModel Require Import Num.QcTac Geometry.Rect Cases.Cmp Alloc.Alloc.
+From FrameModel Require Import Num.QcTac Geometry.Rect Cases.Cmp Alloc.Alloc Alloc.Hist.
 Open Scope Qc_scope.
 
 Definition alloc_eqb (a b : alloc) : bool :=
@@ -9,3 +9,17 @@ Definition cell_eqb (a b : cell) : bool :=
 Definition cells_eqb := list_eqb cell_eqb.
 Definition center_close (k : Z) (scale : Qc) (p : Qc * Qc) (x y : Qc) : bool :=
   qclose k scale (fst p) x && qclose k scale (snd p) y.
+
+(* observations of a history (Alloc/Hist.v): exact, centres within k roundings *)
+Definition areas_eqb (scale : Qc) (a b : list (string * Qc * (Qc * Qc))) : bool :=
+  list_eqb (fun x y => String.eqb (fst (fst x)) (fst (fst y)) && Qceqb (snd (fst x)) (snd (fst y)) &&
+                       center_close 8 scale (snd x) (fst (snd y)) (snd (snd y))) a b.
+Definition hobs_eqb (scale : Qc) (a b : hobs) : bool :=
+  match a, b with
+  | ONew x, ONew y => opt_eqb cells_eqb x y
+  | OFlags x, OFlags y => list_eqb (list_eqb Bool.eqb) x y
+  | OBool x, OBool y => Bool.eqb x y
+  | ONat x, ONat y => Nat.eqb x y
+  | OAreas x, OAreas y => areas_eqb scale x y
+  | _, _ => false
+  end.
